@@ -154,10 +154,18 @@ Fixpoint push_ops (duid : str) (col : N) (c : cp) (ops : list op) (acc : list od
 Definition error_resp (req : ppp) (code : N) : ppp :=
   mkPpp (p_key req) (p_duid req) bit_error (p_cp req) (p_type req) [] (Some code).
 
+(* Where a storage command of the handler fails (C08).  Reads: the lookups of evaluatePushPullCase and
+   the GetOperations of the pull.  Writes of the commit, in order: remove leftovers beyond the end of
+   the log, insert the operation documents, update the datatype document. *)
+Inductive fpoint := FailRead | FailPull | FailPurge | FailInsert | FailUpdate.
+
+Definition purge_after (l : list odoc) (duid : str) (e : N) : list odoc :=
+  filter (fun o => negb (str_eqb (od_duid o) duid && (e <? od_sseq o))) l.
+
 (* pushOperations, pullOperations, commitToMongoDB and finalize, once the datatype document d0,
    the DUID under which operations are stored/pulled, the operations to push and the option of the
-   response are settled *)
-Definition finish_pack (db : sdb) (colname : str) (col : N) (cuid : str) (req : ppp) (ro : bool)
+   response are settled.  f = the command that fails, if any. *)
+Definition finish_pack_f (f : option fpoint) (db : sdb) (colname : str) (col : N) (cuid : str) (req : ppp) (ro : bool)
            (d0 : ddoc) (duid : str) (ops : list op) (opt : N) (err_duid : str) : sdb * ppp * list publish :=
   let cp0 := match alookup str_eqb cuid (clients_of d0 ro) with Some c => c | None => mkCp 0 0 end in
   (* an error after createDatatype / subscribeDatatype keeps the option bit and DUID they set *)
@@ -167,15 +175,35 @@ Definition finish_pack (db : sdb) (colname : str) (col : N) (cuid : str) (req : 
   match pushed with
   | None => (db, err_after err_missing_ops, [])
   | Some (cp1, newdocs) =>
-      (* pullOperations *)
-      let pulled := if has (p_opt req) bit_snapshot then [] else get_ops db duid (sseq (p_cp req) + 1) in
+      (* pullOperations: documents beyond the recorded end of the log are never handed out *)
+      let snapbit := has (p_opt req) bit_snapshot in
+      match f, snapbit with
+      | Some FailPull, false => (db, err_after err_abort_server, [])
+      | _, _ =>
+      let pulled := if snapbit then []
+                    else filter (fun o => od_sseq o <=? dd_end d0) (get_ops db duid (sseq (p_cp req) + 1)) in
       let cp2 := match rev pulled with
                  | [] => cp1
                  | last :: _ => mkCp (od_sseq last + N.of_nat (length newdocs)) (cseq cp1)
                  end in
-      (* commitToMongoDB: InsertMany(operations) then UpdateOne(datatype) *)
-      let '(stored, ok) := insert_ops (s_ops db) newdocs in
+      (* commitToMongoDB: [DeleteMany(leftovers), InsertMany(operations)] when pushing, then UpdateOne(datatype);
+         the response checkpoint is set before the writes, so an error of the commit carries it *)
+      let err_commit code := mkPpp (p_key req) err_duid (N.lor opt bit_error) cp2 (p_type req) (map od_op pulled) (Some code) in
+      let pushing := match newdocs with [] => false | _ => true end in
+      match f, pushing with
+      | Some FailPurge, true => (db, err_commit err_abort_server, [])
+      | _, _ =>
+      let purged := if pushing then purge_after (s_ops db) duid (dd_end d0) else s_ops db in
+      match f, pushing with
+      | Some FailInsert, true =>
+          (mkSdb (s_cols db) (s_colctr db) (s_clients db) (s_dts db) purged, err_commit err_abort_server, [])
+      | _, _ =>
+      let '(stored, ok) := insert_ops purged newdocs in
       if ok then
+        match f with
+        | Some FailUpdate =>
+            (mkSdb (s_cols db) (s_colctr db) (s_clients db) (s_dts db) stored, err_commit err_abort_server, [])
+        | _ =>
         let d1 := set_end (set_client d0 ro cuid cp2) (sseq cp2) in
         let db' := mkSdb (s_cols db) (s_colctr db) (s_clients db) (upsert_dt (s_dts db) d1) stored in
         let resp := mkPpp (p_key req) duid opt cp2 (p_type req) (map od_op pulled) None in
@@ -184,46 +212,67 @@ Definition finish_pack (db : sdb) (colname : str) (col : N) (cuid : str) (req : 
                     | _ => [mkPub colname (dd_key d1) cuid (dd_duid d1) (sseq cp2)]
                     end in
         (db', resp, pubs)
+        end
       else
-        (mkSdb (s_cols db) (s_colctr db) (s_clients db) (s_dts db) stored, err_after err_abort_server, [])
+        (mkSdb (s_cols db) (s_colctr db) (s_clients db) (s_dts db) stored, err_commit err_abort_server, [])
+      end end end
   end.
+Definition finish_pack := finish_pack_f None.
 
 (* one pack of one client; result: new store, response, publishes *)
-Definition handle_pack (db : sdb) (colname : str) (col : N) (cuid : str) (req : ppp) : sdb * ppp * list publish :=
+Definition handle_pack_f (f : option fpoint) (db : sdb) (colname : str) (col : N) (cuid : str) (req : ppp)
+  : sdb * ppp * list publish :=
   let ro := has (p_opt req) bit_readonly in
   if ro && (has (p_opt req) bit_create || negb (match p_ops req with [] => true | _ => false end))
   then (db, error_resp req err_abort_client, [])
   else
+    match f with
+    | Some FailRead => (db, error_resp req err_abort_server, [])    (* a lookup of evaluatePushPullCase failed *)
+    | _ =>
     let '(c, d) := evaluate db col cuid ro req in
     match decide col req c d, d with
     | ARefuse code, _ => (db, error_resp req code, [])
     | ACreate, _ =>
-        finish_pack db colname col cuid req ro (mkDdoc (p_duid req) (p_key req) col (p_type req) 0 [] [])
+        finish_pack_f f db colname col cuid req ro (mkDdoc (p_duid req) (p_key req) col (p_type req) 0 [] [])
                     (p_duid req) (p_ops req) bit_create (p_duid req)
-    | ASubscribe, Some d0 => finish_pack db colname col cuid req ro d0 (dd_duid d0) [] bit_subscribe (dd_duid d0)
-    | ANormal, Some d0 => finish_pack db colname col cuid req ro d0 (p_duid req) (p_ops req) 0 (p_duid req)
+    | ASubscribe, Some d0 => finish_pack_f f db colname col cuid req ro d0 (dd_duid d0) [] bit_subscribe (dd_duid d0)
+    | ANormal, Some d0 => finish_pack_f f db colname col cuid req ro d0 (p_duid req) (p_ops req) 0 (p_duid req)
     | _, None => (db, error_resp req err_no_datatype, [])          (* unreachable: see ServerFacts.decide_spec *)
+    end
     end.
+Definition handle_pack := handle_pack_f None.
 
 (* ---------- ProcessPushPull / ProcessClient / CreateCollection ---------- *)
-Inductive rpc_err := NoCollection | NoClient | NoPermission.
+Inductive rpc_err := NoCollection | NoClient | NoPermission | DbError.
+(* where a storage command fails while a push-pull message is served *)
+Inductive pfault := PFCollection | PFClient | PFPack (fp : fpoint).
 
-Definition process_pushpull (db : sdb) (colname cuid : str) (packs : list ppp)
+Definition process_pushpull_f (f : option pfault) (db : sdb) (colname cuid : str) (packs : list ppp)
   : sdb * (list (ppp * list publish) + rpc_err) :=
+  match f with
+  | Some PFCollection => (db, inr DbError)
+  | _ =>
   match alookup str_eqb colname (s_cols db) with
   | None => (db, inr NoCollection)
   | Some col =>
+      match f with
+      | Some PFClient => (db, inr DbError)
+      | _ =>
       match alookup str_eqb cuid (s_clients db) with
       | None => (db, inr NoClient)
       | Some ccol =>
           if N.eqb ccol col then
+            let fp := match f with Some (PFPack x) => Some x | _ => None end in
             let '(db', out) := fold_left (fun '(db, acc) req =>
-                                 let '(db', resp, pubs) := handle_pack db colname col cuid req in
+                                 let '(db', resp, pubs) := handle_pack_f fp db colname col cuid req in
                                  (db', acc ++ [(resp, pubs)])) packs (db, []) in
             (db', inl out)
           else (db, inr NoPermission)
       end
+      end
+  end
   end.
+Definition process_pushpull := process_pushpull_f None.
 
 Definition create_collection (db : sdb) (name : str) : sdb :=
   match alookup str_eqb name (s_cols db) with
